@@ -51,6 +51,23 @@ ANCHORS = [
     ("SENDER_SPARSE_COMMAND", "src/transport/ssh.rs", r'"\{\} (receive-sparse-file) \{\} --total-size \{\} --regions \'\{\}\' \{\}"', "str"),
     ("VERIFY_REPLACES_NONE_CHECKSUM", "src/sync/mod.rs", r"let checksum_type = if self\.checksum (\|\| self\.verification_mode == ChecksumType::None) \{", "flag"),
     ("VERIFY_BODY_MUTATING_CALLS", "src/sync/mod.rs", r"pub async fn verify\(&self[\s\S]*?\n    \}\n", "count:copy_file|sync_file_with_delta|\\.remove\(|create_dir_all|create_symlink|create_hardlink|write_file|set_file_mtime|std::fs::write|File::create"),
+    # C16: order in which src/main.rs feeds the filter engine, and what each step calls
+    ("FILTER_RULE_ORDER", "src/main.rs", [
+        ("filter", r"for rule in &cli\.filter \{"),
+        ("include", r"for pattern in &cli\.include \{"),
+        ("exclude", r"for pattern in &cli\.exclude \{"),
+        ("include_from", r"if let Some\(ref include_from\) = cli\.include_from \{"),
+        ("exclude_from", r"if let Some\(ref exclude_from\) = cli\.exclude_from \{"),
+        ("template", r"for template_name in &cli\.ignore_template \{"),
+        ("syignore", r"filter_engine\.add_syignore_if_exists\("),
+    ], "order"),
+    ("FILTER_LOOP_CALL", "src/main.rs", r"for rule in &cli\.filter \{\s*if let Err\(e\) = filter_engine\.(\w+)\(rule\)", "str"),
+    ("INCLUDE_LOOP_CALL", "src/main.rs", r"for pattern in &cli\.include \{\s*if let Err\(e\) = filter_engine\.(\w+)\(pattern\)", "str"),
+    ("EXCLUDE_LOOP_CALL", "src/main.rs", r"for pattern in &cli\.exclude \{\s*if let Err\(e\) = filter_engine\.(\w+)\(pattern\)", "str"),
+    ("ADD_INCLUDE_ACTION", "src/filter.rs", r"pub fn add_include\(&mut self, pattern: &str\) -> Result<\(\)> \{\s*let rule = FilterRule::new\(FilterAction::(\w+), pattern\)", "str"),
+    ("ADD_EXCLUDE_ACTION", "src/filter.rs", r"pub fn add_exclude\(&mut self, pattern: &str\) -> Result<\(\)> \{\s*let rule = FilterRule::new\(FilterAction::(\w+), pattern\)", "str"),
+    ("FILTER_NO_MATCH_RESULT", "src/filter.rs", r"// No rules matched - default is to include\s*(true|false)\s*\}", "str"),
+    ("FILTER_FIRST_MATCH_RETURN", "src/filter.rs", r"if rule\.matches\(path, is_dir\) \{\s*return rule\.action == FilterAction::(\w+);", "str"),
     ("TEMP_SUFFIX", "src/transport/local.rs", r'name\.push\("([^"]+)"\);', "str"),
 ]
 
@@ -63,6 +80,18 @@ def extract(repo):
             src = cache.setdefault(p, open(p).read())
         except OSError as e:
             errs.append(f"{name}: cannot read {rel}: {e}"); continue
+        if kind == "order":
+            # rx is a list of (label, regex); every regex must match exactly once; value = labels by position
+            pos, bad = [], False
+            for label, r1 in rx:
+                ms1 = [m.start() for m in re.finditer(r1, src, flags=re.M)]
+                if len(ms1) != 1:
+                    errs.append(f"{name}.{label}: anchor matched {len(ms1)} times in {rel} (expected 1): /{r1}/"); bad = True
+                else:
+                    pos.append((ms1[0], label))
+            if not bad:
+                vals[name] = ("List String", "[" + ", ".join('"' + l + '"' for _, l in sorted(pos)) + "]")
+            continue
         ms = re.findall(rx, src, flags=re.M | (re.S if kind.endswith("_s") else 0))
         if kind.startswith("count:"):
             # number of occurrences of a sub-pattern inside the (unique) anchored region
